@@ -6,10 +6,12 @@ challenge, ignoring unknown types and obligations aimed at the other effect), an
 Guard with the built-in checker and with sync/async custom checkers returning a negative
 verdict.  The model's verdict is the only one the property allows."""
 import asyncio
+import copy
 import itertools
 
 import gen
 import lib
+import morph
 
 RUNNER = "engine"
 
@@ -124,6 +126,364 @@ def gen_direct(chk):
     for decision in ("permit", "deny", "Permit", ""):
         cases.append({"fam": "empty", "decision": decision, "obligations": [], "ctx": {}})
     return cases
+
+
+# ---------------------------------------------------------------------------------------------------------------
+# obligation LISTS that mix entries aimed at permit (met and unmet) with entries aimed at deny that would produce a
+# challenge (every type that has one), in every order: the verdict is the one of the FIRST UNMET obligation aimed at
+# the current effect, entries aimed at the other effect are ignored (c07_verdict / `passes`) — judged on the checker
+# called directly (both decisions) and on the whole Decision through Guard.
+ALL_MET = {"mfa": True, "auth_level": 9, "consent": {"k": True, "tos": True, "marketing": True}, "tos_accepted": True,
+           "captcha_passed": True, "reauth_age_seconds": 1, "age_verified": True}
+# (obligation aimed at permit, a context meeting it or None, a context not meeting it or None)
+P_ENTRIES = [
+    ({"type": "require_mfa"}, {"mfa": True}, {"mfa": False}),
+    ({"type": "require_level", "attrs": {"min": 2}}, {"auth_level": 3}, {"auth_level": "1"}),
+    ({"type": "require_consent", "attrs": {"key": "k"}}, {"consent": {"k": True}}, {"consent": {"z": True}}),
+    ({"type": "require_consent"}, {"consent": True}, {}),
+    ({"type": "require_terms_accept"}, {"tos_accepted": True}, {"tos_accepted": None}),
+    ({"type": "require_captcha"}, {"captcha_passed": 1}, {}),
+    ({"type": "require_reauth", "attrs": {"max_age": 300}}, {"reauth_age_seconds": 100}, {"reauth_age_seconds": 900}),
+    ({"type": "require_age_verified"}, {"age_verified": True}, {"age_verified": 0}),
+    ({"type": "http_challenge", "attrs": {"scheme": "Bearer"}}, None, {}),
+    ({"type": "http_challenge"}, None, {}),
+    ({"type": "require_geo"}, {}, None),
+]
+# entries aimed at deny: every type of core/obligations.py that has a challenge (http_challenge: every scheme branch)
+D_ENTRIES = [
+    {"on": "deny", "type": "http_challenge", "attrs": {"scheme": "Basic"}},
+    {"on": "deny", "type": "http_challenge", "attrs": {"scheme": "BEARER"}},
+    {"on": "deny", "type": "http_challenge", "attrs": {"scheme": "digest"}},
+    {"on": "deny", "type": "http_challenge", "attrs": {"scheme": "ntlm"}},
+    {"on": "deny", "type": "http_challenge"},
+    {"on": "deny", "type": "http_challenge", "attrs": "x"},
+    {"on": "deny", "type": "require_mfa"},
+    {"on": "deny", "type": "require_level", "attrs": {"min": 5}},
+    {"on": "deny", "type": "require_consent", "attrs": {"key": "zz"}},
+    {"on": "deny", "type": "require_consent"},
+    {"on": "deny", "type": "require_terms_accept"},
+    {"on": "deny", "type": "require_captcha"},
+    {"on": "deny", "type": "require_reauth", "attrs": {"max_age": 0}},
+    {"on": "deny", "type": "require_age_verified"},
+]
+CHECKERS3 = ("builtin", "subclass-sync", "subclass-async")
+SHAPES3 = ("single", "set", "nested")
+ALGOS3 = ("deny-overrides", "permit-overrides", "first-applicable")
+
+
+def _p_states():
+    out = []
+    for i, (ob, met, unmet) in enumerate(P_ENTRIES):
+        for j, ctx in enumerate((met, unmet)):
+            if ctx is None:
+                continue
+            o = dict(ob)
+            if (i + j) % 2:
+                o = {"on": "permit", **o}            # `on` absent and on: permit both aim at permit
+            out.append((o, ctx, j == 0))
+    return out
+
+
+def _mixed_lists(chk):
+    """[(obligations, ctx)]: pairs in both orders, triples (met, unmet, aimed-at-deny) in every order, longer lists"""
+    thorough = chk.tier == "thorough"
+    ps = _p_states()
+    out = []
+    for p, ctx, _met in ps:
+        for d in D_ENTRIES:
+            out.append(([p, d], ctx))
+            out.append(([d, p], ctx))
+    n = 0
+    for (p1, c1, m1), (p2, c2, m2) in itertools.product(ps, repeat=2):
+        if not m1 or m2 or p1["type"] == p2["type"]:
+            continue                                  # p1 met, p2 unmet, of different types
+        ds = D_ENTRIES if thorough else [D_ENTRIES[(n + k * 5) % len(D_ENTRIES)] for k in range(2)]
+        for d in ds:
+            perms = list(itertools.permutations([p1, p2, d]))
+            if not thorough:
+                perms = [perms[n % 6], perms[(n + 3) % 6]]
+            for perm in perms:
+                out.append((list(perm), {**c1, **c2}))
+            n += 1
+    # longer lists: two entries aimed at deny around / between the entries aimed at permit; every entry aimed at deny
+    for k in range(len(ps) * (4 if thorough else 1)):
+        p1, c1, _ = ps[k % len(ps)]
+        p2, c2, _ = ps[(k * 7 + 3) % len(ps)]
+        d1, d2 = D_ENTRIES[k % len(D_ENTRIES)], D_ENTRIES[(k * 3 + 1) % len(D_ENTRIES)]
+        items = [d1, p1, d2, p2]
+        chk.rng.shuffle(items)
+        out.append((items, {**c1, **c2}))
+    out.append((list(D_ENTRIES), {}))
+    out.append((list(D_ENTRIES) + [{"type": "require_mfa"}], {}))
+    out.append(([{"type": "require_mfa"}] + list(D_ENTRIES), {"mfa": 1}))
+    return out
+
+
+def gen_mixed(chk):
+    thorough = chk.tier == "thorough"
+    cases = []
+    lists = _mixed_lists(chk)
+    # quick: every list reaches the checker directly under one of the two decisions; a seed-dependent 1-in-5 sample
+    # (the step is coprime to the 14 x 2 entry/order combinations of the pairs) goes through Guard and gets both decisions
+    off = chk.rng.randrange(5)
+    picked = [thorough or li % 5 == off for li in range(len(lists))]
+    for li, (obs, ctx) in enumerate(lists):
+        for k, decision in enumerate(("permit", "deny")):
+            if thorough or picked[li] or (li % 2 == 0 and (li // 2) % 2 == k):
+                cases.append({"fam": "mixed", "decision": decision, "obligations": obs, "ctx": ctx})
+    # through Guard: checker flavour x API x policy shape x algorithm rotate (thorough: the whole product for the pairs)
+    i = 0
+    for li, (obs, ctx) in enumerate(lists):
+        if not picked[li]:
+            continue
+        full = thorough and len(obs) == 2
+        combos = (list(itertools.product(CHECKERS3, ("sync", "async"), SHAPES3, ALGOS3)) if full else
+                  [(CHECKERS3[i % 3], ("async", "sync", "async")[(i // 3) % 3], SHAPES3[(i // 9) % 3], ALGOS3[(i // 27) % 3])])
+        for checker, api, shape, algo in combos:
+            cases.append({"fam": "engine_mixed", "obligations": obs, "ctx": ctx, "shape": shape, "algo": algo,
+                          "effect": "permit", "checker": checker, "api": api, "cached": (i // 2) % 4 == 1})
+        i += 1
+    # a rule that DENIES carrying such lists: the deny stays (c07_engine_deny_stays); obligations are not consulted
+    ps = _p_states()
+    for k, d in enumerate(D_ENTRIES):
+        for a, algo in enumerate(ALGOS3):
+            if not thorough and (k + off) % 3 != a:
+                continue
+            p, ctx, _ = ps[(k * 2 + 1) % len(ps)]
+            cases.append({"fam": "engine_mixed", "obligations": [p, d] if k % 2 else [d, p], "ctx": ctx,
+                          "shape": SHAPES3[k % 3], "algo": algo, "effect": "deny", "checker": CHECKERS3[k % 3],
+                          "api": ("sync", "async")[k % 2], "cached": False})
+    return cases
+
+
+# ---------------------------------------------------------------------------------------------------------------
+# "the library saw the same policy OBJECT in an earlier state": a perturbed copy of the case's obligations (one aspect
+# changed in every obligation) is evaluated first (requests that reach the obligation check: the rule matches and
+# permits), then the very same dict / list objects are edited in place into the case's policy (morph.morph) and
+# re-published — update_policy(same object) / set_policy(same object) / a new Guard(same object) — or handed again
+# to the checker object directly.  The answer must be the model's for the case's policy (the document AS IT IS NOW).
+PERTURBATIONS = ("unknown_type", "loosen", "tighten", "retype", "flip_on", "scheme", "reverse", "extra_first")
+ROUTES = ("update_policy", "set_policy", "new_guard")
+_RETYPE = {"require_mfa": "require_terms_accept", "require_terms_accept": "require_captcha",
+           "require_captcha": "require_age_verified", "require_age_verified": "require_mfa",
+           "require_level": "require_reauth", "require_reauth": "require_level", "require_consent": "require_mfa",
+           "http_challenge": "require_mfa"}
+_SCHEMES = ["Basic", "Bearer", "Digest", "ntlm"]
+
+
+def perturb_obs(obs, kind):
+    """a deep copy of the obligation list with one aspect changed in every obligation (None: nothing to change)"""
+    out = copy.deepcopy(obs)
+    if kind == "reverse":
+        out.reverse()
+    elif kind == "extra_first":
+        out.insert(0, {"type": "require_geo"})
+    for o in out:
+        if not isinstance(o, dict) or kind in ("reverse", "extra_first"):
+            continue
+        typ = o.get("type")
+        attrs = o.get("attrs")
+        if kind == "unknown_type":
+            o["type"] = "zz_unknown_obligation"
+        elif kind == "retype":
+            o["type"] = _RETYPE.get(typ, "require_mfa") if isinstance(typ, str) else "require_mfa"
+        elif kind == "flip_on":
+            o["on"] = "permit" if o.get("on") == "deny" else "deny"
+        elif kind in ("loosen", "tighten"):
+            loose = kind == "loosen"
+            if not isinstance(attrs, dict):
+                attrs = o["attrs"] = {}
+            if typ == "require_level":
+                attrs["min"] = 0 if loose else 10**6
+            elif typ == "require_reauth":
+                attrs["max_age"] = 10**9 if loose else -1
+            elif typ == "require_consent":
+                if loose:
+                    attrs.pop("key", None)
+                else:
+                    attrs["key"] = "zz_other_key"
+        elif kind == "scheme" and typ == "http_challenge":
+            if not isinstance(attrs, dict):
+                attrs = o["attrs"] = {}
+            cur = str(attrs.get("scheme", "")).capitalize()
+            attrs["scheme"] = _SCHEMES[(_SCHEMES.index(cur) + 1) % 4] if cur in _SCHEMES else "Basic"
+    return None if out == obs else out
+
+
+MORPH_OBS = [
+    [{"type": "require_level", "attrs": {"min": 2}}],
+    [{"type": "require_reauth", "attrs": {"max_age": 300}}],
+    [{"type": "require_consent", "attrs": {"key": "k"}}],
+    [{"type": "require_consent", "attrs": {}}],
+    [{"type": "require_consent"}],
+    [{"type": "require_mfa"}],
+    [{"type": "require_terms_accept"}, {"type": "require_captcha"}],
+    [{"on": "deny", "type": "require_age_verified"}],
+    [{"on": "permit", "type": "require_age_verified"}],
+    [{"type": "http_challenge", "attrs": {"scheme": "Basic"}}],
+    [{"on": "deny", "type": "http_challenge", "attrs": {"scheme": "Digest"}}],
+    [{"type": "require_mfa"}, {"on": "deny", "type": "http_challenge", "attrs": {"scheme": "Basic"}}],
+    [{"type": "require_level", "attrs": {"min": 1}}, {"type": "require_mfa"}, {"type": "require_level", "attrs": {"min": 3}}],
+    [{"type": "require_geo"}, {"type": "require_reauth", "attrs": {"max_age": "60"}}],
+]
+
+
+def _morph_ctxs(obs):
+    keys = {KEY_OF[o["type"]] for o in obs if o.get("type") in KEY_OF}
+    without = {k: v for k, v in ALL_MET.items() if k not in keys}
+    only = {k: v for k, v in ALL_MET.items() if k in keys}
+    edge = {}
+    for o in obs:                                     # just inside the requirement as the case states it
+        a = o.get("attrs") or {}
+        if o.get("type") == "require_level" and isinstance(a.get("min"), int):
+            edge["auth_level"] = max(a["min"], edge.get("auth_level", 0))
+        if o.get("type") == "require_reauth" and isinstance(a.get("max_age"), int):
+            edge["reauth_age_seconds"] = a["max_age"]
+        if o.get("type") == "require_consent":
+            edge["consent"] = {a["key"]: True} if a.get("key") is not None else {"other": True}
+    out = []
+    for c in ({}, dict(ALL_MET), without, only, {**without, **edge}):
+        if c not in out:
+            out.append(c)
+    return out
+
+
+def gen_morph(chk):
+    thorough = chk.tier == "thorough"
+    triples = [(obs, kind, ctx) for obs in MORPH_OBS for kind in PERTURBATIONS if perturb_obs(obs, kind) is not None
+               for ctx in _morph_ctxs(obs)]
+    # sensitive = the model judges the earlier state of the objects differently from the state they are in now
+    lines = []
+    for obs, kind, ctx in triples:
+        lines.append(lib.model_call("oblig.check", "permit", perturb_obs(obs, kind), ctx))
+        lines.append(lib.model_call("oblig.check", "permit", obs, ctx))
+    outs = lib.run_model(RUNNER, lines)
+    sens = [outs[2 * k] != outs[2 * k + 1] for k in range(len(triples))]
+    cases, i, dull = [], 0, chk.rng.randrange(8)
+    for (obs, kind, ctx), sensitive in zip(triples, sens):
+        dull += 0 if sensitive else 1
+        # quick: every sensitive history; of the others 1 in 4 (checker called directly) / 1 in 8 (through Guard)
+        for decision in ("permit", "deny"):
+            for k, inst in enumerate(("same-checker", "new-checker")):
+                if thorough or (decision == "permit" and (sensitive or dull % 4 == 0)) or (decision == "deny" and i % 6 == k):
+                    cases.append({"fam": "morph_direct", "decision": decision, "obligations": obs, "ctx": ctx,
+                                  "perturb": kind, "instance": inst, "raw": ("same", "fresh")[(i // 2) % 2],
+                                  "sensitive": sensitive and decision == "permit"})
+                i += 1
+        if not (thorough or sensitive or dull % 8 == 0):
+            continue
+        combos = (list(itertools.product(ROUTES, SHAPES3, (False, True), ("sync", "async"), ("default", "shared")))
+                  if thorough else
+                  [(ROUTES[i % 3], SHAPES3[(i // 3) % 3], (i // 9) % 3 == 1, ("async", "sync", "async")[(i // 27) % 3],
+                    ("default", "shared")[(i // 2) % 2])])
+        for route, shape, cached, api, checker in combos:
+            cases.append({"fam": "engine_morph", "obligations": obs, "ctx": ctx, "perturb": kind, "route": route,
+                          "shape": shape, "algo": ALGOS3[i % 3], "effect": "permit", "cached": cached, "api": api,
+                          "checker": checker, "sensitive": sensitive})
+            i += 1
+    return cases
+
+
+REQ = {"subject": {"id": "u", "roles": [], "attrs": {}}, "action": "read", "resource": {"type": "doc", "id": "1", "attrs": {}}}
+
+
+def policy_of(c, obs):
+    rule = {"id": "r", "effect": c.get("effect", "permit"), "actions": ["read"], "resource": {"type": "doc"},
+            "obligations": obs}
+    pol = {"id": "p", "algorithm": c.get("algo", "deny-overrides"), "rules": [rule]}
+    if c["shape"] == "set":
+        pol = {"algorithm": "first-applicable", "policies": [pol]}
+    elif c["shape"] == "nested":
+        pol = {"id": "outer", "algorithm": "deny-overrides",
+               "policies": [{"id": "inner", "algorithm": "permit-overrides", "policies": [pol]}]}
+    return pol
+
+
+def _decision_json(d):
+    return {"allowed": d.allowed, "effect": d.effect, "obligations": copy.deepcopy(d.obligations), "challenge": d.challenge,
+            "rule_id": d.rule_id, "policy_id": d.policy_id, "reason": d.reason}
+
+
+def run_engine2(cases):
+    """engine_mixed / engine_morph: one list of Decisions (as dicts, or ["Raise", name]) per case"""
+    from rbacx.core.cache import DefaultInMemoryCache
+    from rbacx.core.engine import Guard
+    from rbacx.core.model import Action, Context, Resource, Subject
+    from rbacx.core.obligations import BasicObligationChecker
+
+    class Sub(BasicObligationChecker):                # as docs/obligations.md: subclass, call super().check
+        def check(self, raw, context):
+            return super().check(raw, context)
+
+    class SubAsync(BasicObligationChecker):
+        async def check(self, raw, context):  # type: ignore[override]
+            await asyncio.sleep(0)
+            return BasicObligationChecker.check(self, raw, context)
+
+    loop = asyncio.new_event_loop()
+    out = []
+
+    def ask(g, c, ctx):
+        args = (Subject(id="u"), Action("read"), Resource(type="doc", id="1"), Context(attrs=copy.deepcopy(ctx)))
+        try:
+            if c["api"] == "sync":
+                return _decision_json(g.evaluate_sync(*args))
+            return _decision_json(loop.run_until_complete(g.evaluate_async(*args)))
+        except Exception as e:  # noqa: BLE001
+            return ["Raise", type(e).__name__]
+
+    try:
+        for c in cases:
+            inst = {"builtin": None, "default": None, "shared": BasicObligationChecker(), "subclass-sync": Sub(),
+                    "subclass-async": SubAsync()}[c["checker"]]
+
+            def mk(p):
+                return Guard(p, obligation_checker=inst, cache=DefaultInMemoryCache(16) if c["cached"] else None)
+
+            target = policy_of(c, gen.fresh(c["obligations"]))
+            if c["fam"] == "engine_morph":
+                obj = policy_of(c, perturb_obs(c["obligations"], c["perturb"]))
+                g = mk(obj)
+                for wctx in (c["ctx"], ALL_MET):      # the library sees every obligation of the earlier state
+                    ask(g, c, wctx)
+                morph.morph(obj, target)
+                assert obj == target
+                if c["route"] == "new_guard":
+                    g = mk(obj)
+                else:
+                    getattr(g, c["route"])(obj)
+            else:
+                g = mk(target)
+            out.append([ask(g, c, c["ctx"]) for _ in range(2 if c["cached"] else 1)])
+    finally:
+        loop.close()
+    return out
+
+
+def run_morph_direct(c):
+    from rbacx.core.model import Context
+    from rbacx.core.obligations import BasicObligationChecker
+
+    inst = BasicObligationChecker()
+    obj = perturb_obs(c["obligations"], c["perturb"])
+    raw = {"decision": c["decision"], "obligations": obj}
+    try:
+        for wctx in (c["ctx"], ALL_MET):
+            for d in ("permit", "deny"):
+                raw["decision"] = d
+                inst.check(raw if c["raw"] == "same" else dict(raw), Context(attrs=copy.deepcopy(wctx)))
+    except Exception:  # noqa: BLE001  (the earlier state is judged by its own cases)
+        pass
+    morph.morph(obj, gen.fresh(c["obligations"]))
+    assert obj == c["obligations"]
+    raw["decision"] = c["decision"]
+    if c["instance"] == "new-checker":
+        inst = BasicObligationChecker()
+    try:
+        ok, ch = inst.check(raw if c["raw"] == "same" else dict(raw), Context(attrs=copy.deepcopy(c["ctx"])))
+        return ["Ok", bool(ok), ch]
+    except Exception as e:  # noqa: BLE001
+        return ["Raise", type(e).__name__]
 
 
 def engine_cases(chk):
@@ -287,9 +647,9 @@ def run_engine(cases):
 
 
 def check_cases(chk, cases, replay=False):
-    direct = [c for c in cases if not c["fam"].startswith("engine")]
+    direct = [c for c in cases if not c["fam"].startswith("engine") and c["fam"] != "morph_direct"]
     lines = [lib.model_call("oblig.check", c["decision"], c["obligations"], c["ctx"]) for c in direct]
-    outs = [lib.dec(x) for x in lib.run_model(RUNNER, lines)]
+    outs = [lib.dec(x) for x in lib.run_model(RUNNER, lines, chunk=max(500, len(lines) // 8 + 1))]
     for c, m in zip(direct, outs):
         i = impl_check(c["decision"], c["obligations"], c["ctx"])
         chk.count("fam:" + c["fam"])
@@ -310,7 +670,9 @@ def check_cases(chk, cases, replay=False):
             else:
                 chk.violation("built-in checker verdict/challenge differs from the documented table "
                               "(model Oblig.check = table `met`, props/C07.v)", c, impl=i, model=m)
-    eng = [c for c in cases if c["fam"].startswith("engine")]
+    check_morph_direct(chk, [c for c in cases if c["fam"] == "morph_direct"])
+    check_engine2(chk, [c for c in cases if c["fam"] in ("engine_mixed", "engine_morph")])
+    eng = [c for c in cases if c["fam"] in ("engine", "engine_subclass", "engine_custom")]
     if eng:
         res = run_engine(eng)
         blines = [lib.model_call("oblig.check", "permit", c["obligations"] or [], c["ctx"]) for c in eng]
@@ -336,6 +698,80 @@ def check_cases(chk, cases, replay=False):
                     break
 
 
+def _earlier_state(c):
+    return ("after the same obligation objects, seen by the library in an earlier state (%s), were edited in place "
+            "into this policy" % c["perturb"])
+
+
+def check_morph_direct(chk, cases):
+    if not cases:
+        return
+    lines = [lib.model_call("oblig.check", c["decision"], c["obligations"], c["ctx"]) for c in cases]
+    outs = [lib.dec(x) for x in lib.run_model(RUNNER, lines)]
+    for c, m in zip(cases, outs):
+        sensitive = bool(c.get("sensitive"))          # (gen_morph) the model judges the earlier state differently
+        chk.count("fam:" + c["fam"])
+        if m == ["Ood"]:
+            chk.count("ood")
+            chk.mark(("ood", repr(c)), False)
+            continue
+        i = run_morph_direct(c)
+        # non-trivial: the earlier state of the objects is judged differently from the state they are in now
+        chk.mark(repr(c), m[0] == "Ok" and sensitive)
+        chk.count("morph:" + ("sensitive" if sensitive else "same-verdict-before"))
+        mm = ["Raise"] if m[0] == "Raise" else m
+        ii = ["Raise"] if i[0] == "Raise" else i
+        if ii != mm:
+            chk.violation("built-in checker verdict/challenge differs from the documented table for the obligations AS "
+                          "THEY ARE NOW (model Oblig.check = table `met`, props/C07.v), %s and handed to %s"
+                          % (_earlier_state(c), "the same checker object" if c["instance"] == "same-checker"
+                             else "a new checker object"), c, impl=i, model=m)
+
+
+def check_engine2(chk, cases):
+    if not cases:
+        return
+    res = run_engine2(cases)
+    lines = []
+    for c in cases:
+        req = {**REQ, "context": c["ctx"]}
+        lines.append(lib.model_call("engine.eval", False, policy_of(c, c["obligations"]), req, None, None))
+    outs = iter([lib.dec(x) for x in lib.run_model(RUNNER, lines, chunk=max(100, len(lines) // 8 + 1))])
+    for c, ds in zip(cases, res):
+        m = next(outs)
+        sensitive = True
+        if c["fam"] == "engine_morph":
+            sensitive = bool(c.get("sensitive"))
+            chk.count("morph:" + ("sensitive" if sensitive else "same-verdict-before"))
+        chk.count("fam:" + c["fam"])
+        if not isinstance(m, dict):                   # Ood / Raise: outside the modelled domain of the engine
+            chk.count("engine2:model-" + str(m[0]))
+            chk.mark(("ood", repr(c)), False)
+            continue
+        chk.mark(repr(c), sensitive and bool(c["obligations"]))
+        chk.count("decision:%s/%s/%s" % (m["effect"], m["reason"], m["challenge"]))
+        deny_rule = c.get("effect") == "deny"
+        for k, d in enumerate(ds):
+            same = d == m
+            if deny_rule and isinstance(d, dict):     # c07_engine_deny_stays does not speak about the challenge
+                same = {**d, "challenge": None} == {**m, "challenge": None}
+            if same:
+                continue
+            how = " on a cache hit" if k == 1 else ""
+            if c["fam"] == "engine_morph":
+                how += ", %s and re-published with %s" % (_earlier_state(c), {
+                    "update_policy": "update_policy(same object)", "set_policy": "set_policy(same object)",
+                    "new_guard": "a new Guard(same object)"}[c["route"]])
+            if deny_rule:
+                clause = "a deny carrying obligations does not stay the policy's deny (c07_engine_deny_stays)" + how
+            else:
+                clause = ("engine does not gate the permit by its obligations: the Decision must be the one gated by the "
+                          "FIRST UNMET obligation aimed at permit, obligations aimed at the other effect ignored "
+                          "(c07_verdict, c07_engine_gate / c07_engine_grants)" + how)
+            chk.violation(clause, c, impl=d, model=m)
+            break
+
+
 def corpus_cases():
     import json
     out = []
@@ -355,6 +791,6 @@ def run(chk):
                 "by the model; distinct = distinct case")
     chk.assumptions = ["CPython's int/str conversion limit is the default 4300 digits (sys.get_int_max_str_digits()); the model treats longer digit strings as a conversion failure, exercised at 4300 / 4301 digits",
                        "non-ASCII strings passed to int() are outside the model (ood)"]
-    cases = corpus_cases() + gen_direct(chk) + engine_cases(chk)
+    cases = corpus_cases() + gen_direct(chk) + engine_cases(chk) + gen_mixed(chk) + gen_morph(chk)
     check_cases(chk, cases)
     chk.exhaustive = True
